@@ -84,6 +84,7 @@ class Unit:
         self.not_under_contract = []
         self.sources = {}        # crate -> sha of sources
         self.assumptions = []
+        self.census = {}         # crate -> sorted list of all fn paths in the expansion
 
     # ---- assembling -------------------------------------------------
     def raw(self, text):
@@ -92,7 +93,11 @@ class Unit:
     def crate(self, name, **kw):
         text, sha = expand(name, **kw)
         self.sources[name] = sha
-        return Crate(text)
+        c = Crate(text)
+        # census of every function of the expanded crate (methods of derived and hand-written impls included): a function that is
+        # not in the committed census is new code that no contract covers (e.g. an override of a defaulted trait method)
+        self.census[name] = sorted(p for p in c.order if c.index[p].kind == 'fn')
+        return c
 
     def struct(self, crate, path, derive=''):
         it = crate.get(path)
